@@ -3,7 +3,8 @@
 A  TLC exhaustive on spec/Codec at the scaled limits (MaxU8/MaxLabel/MaxName/MaxTxtChunk/MaxU16 = 3/2/7/3/15, 2 pointers):
    RoundTrip, RejectNotAlter, DecoderTotal, Fresh, WrongKeyNeverReveals over every length up to beyond each limit, every name
    shape, every byte string up to length 6.  Non-vacuity: the "truncating" framing, the "unbounded" pointer writer and the
-   "static" nonce instance must violate RejectNotAlter / RoundTrip / Fresh.
+   "static" nonce instance must violate RejectNotAlter / RoundTrip / Fresh; the "inplace" decoder instance (a Reveal that
+   consumes the buffer it was given) must violate RoundTrip.
 B  Gen_Codec evaluates the same module at the REAL limits on the boundary partition (+ seeded samples in between) and prints
    one JSON case per evaluation (expected accept/reject, encoded length, prefix bytes, chunk structure, outcome of an exchange).
    Drivers inside the real packages instantiate each case with seeded random content and run the real encoders and decoders:
@@ -65,7 +66,7 @@ def run(ctx):
     ctx.require_design_ok(r, "Codec at the scaled limits")
     ctx.log("A: exhaustive %d distinct evaluations, %d generated (%.1fs)" % (r["distinct"], r["generated"], r["wall_s"]))
     nonvac = {}
-    for inst, inv in (("truncating", "RejectNotAlter"), ("unbounded", "RoundTrip"), ("static", "Fresh")):
+    for inst, inv in (("truncating", "RejectNotAlter"), ("unbounded", "RoundTrip"), ("static", "Fresh"), ("inplace", "RoundTrip")):
         r2 = ctx.tlc(sdir, "MC_Codec.tla", "MC_Codec_%s.cfg" % inst, timeout=300, count=False, workers=4)
         if r2["inv"] != inv:
             raise vlib.InfraError("the %s instance should violate %s, got %s" % (inst, inv, r2["inv"]))
